@@ -96,6 +96,22 @@ impl Obs {
         h.finish()
     }
 
+    /// Which kind of answer differs first: "keys", "edges", "data" (the data marker of v_print) or "text".
+    pub fn diff_kind(&self, other: &Self) -> Option<&'static str> {
+        if self.keys != other.keys || self.len != other.len || self.is_empty != other.is_empty {
+            return Some("keys");
+        }
+        for (a, b) in self.verts.iter().zip(other.verts.iter()) {
+            if a.kids != b.kids || a.probes.iter().zip(b.probes.iter()).any(|(x, y)| x != y) {
+                return Some("edges");
+            }
+            if a.vprint.contains('Δ') != b.vprint.contains('Δ') {
+                return Some("data");
+            }
+        }
+        self.diff(other).map(|_| "text")
+    }
+
     /// First difference between two observations, in words.
     pub fn diff(&self, other: &Self) -> Option<String> {
         if self.keys != other.keys {
